@@ -378,6 +378,86 @@ PagLinkSessionClauses(post, o, S) ==
     <<"C10.token",    r.tokenRoundTrip>>
   >>)
 
+(***************************************************************************)
+(* Block-level transcriptions of the remaining query algorithms, used by   *)
+(* the model checker (TraphMC) to show, in every reachable state, that the *)
+(* algorithm computes the declarative answer of TraphAbs.                  *)
+(***************************************************************************)
+(* get_webentities_links_iter (fast): resolve every page by carrying the    *)
+(* nearest webentity down the traversal, then aggregate the link lists      *)
+NetFast(tr, ls, out, auto) ==
+  LET d == DfsWeRoot(tr)
+      pageWe == { <<d[j][1], d[j][2]>> : j \in { x \in 1..Len(d) : tr[d[x][1]].pg /\ d[x][2] # 0 } }
+      WeOfPage(b) == IF \E e \in pageWe : e[1] = b THEN (CHOOSE e \in pageWe : e[1] = b)[2] ELSE 0
+      edges == UNION { LET w == Weighted(ls, IF out THEN tr[e[1]].o ELSE tr[e[1]].i) IN
+                       { <<e[1], w[j][1], w[j][2]>> : j \in 1..Len(w) }
+                       : e \in { x \in pageWe : (IF out THEN tr[x[1]].o ELSE tr[x[1]].i) # 0 } }
+      prs == { <<WeOfPage(x[1]), WeOfPage(x[2])>> : x \in edges }
+      ok  == { pr \in prs : pr[2] # 0 /\ (auto \/ pr[1] # pr[2]) }
+  IN { <<pr[1], pr[2], SumW({ x \in edges : WeOfPage(x[1]) = pr[1] /\ WeOfPage(x[2]) = pr[2] })>> : pr \in ok }
+
+(* get_webentities_links_slow_iter: targets resolved bottom-up *)
+NetSlow(tr, ls, out, auto) ==
+  LET d == DfsWeRoot(tr)
+      src == { <<d[j][1], d[j][2]>> : j \in { x \in 1..Len(d) :
+                 tr[d[x][1]].pg /\ d[x][2] # 0 /\ (IF out THEN tr[d[x][1]].o ELSE tr[d[x][1]].i) # 0 } }
+      edges == UNION { LET w == Weighted(ls, IF out THEN tr[e[1]].o ELSE tr[e[1]].i) IN
+                       { <<e[2], WindupWe(tr, w[j][1]), e[1], w[j][1], w[j][2]>> : j \in 1..Len(w) } : e \in src }
+      ok == { <<x[1], x[2]>> : x \in { y \in edges : y[2] # 0 /\ (auto \/ y[1] # y[2]) } }
+  IN { <<pr[1], pr[2], SumW({ <<x[3], x[4], x[5]>> : x \in { y \in edges : y[1] = pr[1] /\ y[2] = pr[2] } })>> : pr \in ok }
+
+(* get_webentity_pagelinks *)
+WeLinksBlocks(tr, ls, w, ps, inb, internal, outb) ==
+  LET pgs == UNION { LET n == LruNode(tr, ps[i]) IN
+                     IF n = 0 THEN {} ELSE
+                     LET d == WeDfsFrom(tr, n, ps[i], Unlimited) IN { d[j][1] : j \in { x \in 1..Len(d) : tr[d[x][1]].pg } }
+                     : i \in 1..Len(ps) }
+      outs == UNION { LET wl == Weighted(ls, tr[b].o) IN
+                      { <<Windup(tr, b), Windup(tr, wl[j][1]), wl[j][2]>> :
+                          j \in { x \in 1..Len(wl) : LET tw == WindupWe(tr, wl[x][1]) IN
+                                                       (outb /\ tw # w) \/ (internal /\ tw = w) } }
+                      : b \in { x \in pgs : tr[x].o # 0 /\ (outb \/ internal) } }
+      ins  == UNION { LET wl == Weighted(ls, tr[b].i) IN
+                      { <<Windup(tr, wl[j][1]), Windup(tr, b), wl[j][2]>> :
+                          j \in { x \in 1..Len(wl) : WindupWe(tr, wl[x][1]) # w } }
+                      : b \in { x \in pgs : tr[x].i # 0 /\ inb } }
+  IN outs \cup ins
+
+(* get_webentity_child_webentities (with the pruning flag) / parents *)
+ChildrenBlocks(tr, w, ps) ==
+  UNION { LET n == LruNode(tr, ps[i]) IN
+          IF n = 0 THEN {} ELSE
+          LET d == DfsFrom(tr, n, ps[i], TRUE) IN
+          { tr[d[j][1]].we : j \in { x \in 1..Len(d) : tr[d[x][1]].we # 0 /\ tr[d[x][1]].we # w } }
+          : i \in 1..Len(ps) }
+ParentsBlocks(tr, w, ps) ==
+  UNION { LET n == LruNode(tr, ps[i]) IN
+          IF n = 0 THEN {} ELSE
+          LET c == ParentChain(tr, n) IN
+          { tr[c[j]].we : j \in { x \in 1..Len(c) : tr[c[x]].we # 0 /\ tr[c[x]].we # w } }
+          : i \in 1..Len(ps) }
+
+(* get_webentity_most_linked_pages: a min-heap of (indegree, arrival, lru)   *)
+(* keeps the k largest; the code reads the link-store header as a stub for   *)
+(* a page without inbound links, hence max(1, .) (known finding F9)          *)
+CodeInDegree(tr, ls, b) == IF tr[b].i = 0 THEN 1 ELSE Len(Deduped(ls, tr[b].i))
+TopBlocks(tr, ls, ps, k, depth) ==
+  LET RECURSIVE cat(_)
+      cat(i) == IF i > Len(ps) THEN <<>>
+                ELSE LET n == LruNode(tr, ps[i])
+                         d == IF n = 0 THEN <<>> ELSE WeDfsFrom(tr, n, ps[i], depth)
+                     IN SelectSeq(d, LAMBDA e : tr[e[1]].pg) \o cat(i + 1)
+      pg == cat(1)
+      key(j) == <<CodeInDegree(tr, ls, pg[j][1]), j>>
+      Less(a, b) == a[1] < b[1] \/ (a[1] = b[1] /\ a[2] < b[2])
+      \* the k largest keys, in decreasing order
+      kept == { j \in 1..Len(pg) : Cardinality({ x \in 1..Len(pg) : Less(key(j), key(x)) }) < k }
+      RECURSIVE sorted(_)
+      sorted(S) == IF S = {} THEN <<>>
+                   ELSE LET m == CHOOSE j \in S : \A x \in S : x = j \/ Less(key(x), key(j))
+                        IN <<[l |-> pg[m][2], n |-> key(m)[1]]>> \o sorted(S \ {m})
+  IN sorted(kept)
+
 (* C14: no read-only request changes a byte of either store (hashes and the  *)
 (* count of storage writes are taken by the harness around every call)      *)
 ReadOnlyClauses(q) ==
